@@ -20,6 +20,13 @@
 (* Close must name the innermost open domain (otherwise the document has no meaning: fault), a     *)
 (* k=v line binds k in the innermost domain (later duplicates win) and is appended to its line     *)
 (* listing, comments and blank lines are ignored.                                                  *)
+(* A line without '=' ("key"): the statement does not say whether it defines a key.  Both readings are admitted, *)
+(* ONE PER DOCUMENT: under the reading "defines" (RunR(doc, TRUE)) it binds its text to the empty value like     *)
+(* "k=" does -- so it takes part in "later duplicates win" in either position: k=v followed by a bare k leaves  *)
+(* k empty, a bare k followed by k=v leaves v --, under the reading "ignored" (RunR(doc, FALSE)) it is an entry  *)
+(* of the line listing and nothing else.  A parser that lists a bare k as a key when it stands alone but keeps   *)
+(* an earlier k=v when it does not follows neither reading.  Run(doc) = RunR(doc, FALSE) is the part both        *)
+(* readings share (domains, faults, '='-bindings of keys never written bare).                                     *)
 (* A second, declarative characterisation (Encl, DeclLookup, ...) says the same thing without a stack, by     *)
 (* counting; MC_Conf checks that both agree on every document of a small scope.                    *)
 EXTENDS Integers, Sequences, FiniteSets, TLC
@@ -42,7 +49,7 @@ St0 == [stack |-> <<>>, fault |-> 0, n |-> 0, dom |-> (<<>> :> EmptyDom)]
 Front(s) == SubSeq(s, 1, Len(s) - 1)
 Last(s)  == s[Len(s)]
 
-Step(st, l) ==
+StepR(st, l, bare) ==
   LET p == st.stack
       s == [st EXCEPT !.n = @ + 1]
   IN IF st.fault # 0 THEN s                              \* nothing after a mismatched close has a meaning
@@ -57,14 +64,18 @@ Step(st, l) ==
             [] Binding(l) ->
                  [s EXCEPT !.dom = [st.dom EXCEPT ![p].kv = (l.k :> l.v) @@ @, ![p].lines = Append(@, l)]]
             [] l.t = "key" ->
-                 [s EXCEPT !.dom = [st.dom EXCEPT ![p].opt = @ \cup {l.k}, ![p].lines = Append(@, l)]]
+                 [s EXCEPT !.dom = [st.dom EXCEPT ![p].opt = @ \cup {l.k}, ![p].lines = Append(@, l),
+                                                  ![p].kv = IF bare THEN (l.k :> "") @@ @ ELSE @]]
             [] l.t = "nokey" ->
                  [s EXCEPT !.dom = [st.dom EXCEPT ![p].lines = Append(@, l)]]
             [] OTHER -> s
 
-RECURSIVE Fold(_, _, _)
-Fold(st, doc, i) == IF i > Len(doc) THEN st ELSE Fold(Step(st, doc[i]), doc, i + 1)
-Run(doc) == Fold(St0, doc, 1)
+Step(st, l) == StepR(st, l, FALSE)
+RECURSIVE FoldR(_, _, _, _)
+FoldR(st, doc, i, bare) == IF i > Len(doc) THEN st ELSE FoldR(StepR(st, doc[i], bare), doc, i + 1, bare)
+RunR(doc, bare) == FoldR(St0, doc, 1, bare)
+Run(doc) == RunR(doc, FALSE)
+HasBare(doc) == \E i \in 1..Len(doc) : doc[i].t = "key"
 
 (* Classification of a document: what a parser is allowed to answer *)
 Mismatch(r)  == r.fault # 0                    \* a close that closes nothing: must be an error
@@ -169,8 +180,11 @@ DeclFault(doc) == LET B == {c \in 1..Len(doc) : doc[c].t = "close" /\
 Eff(doc) == LET f == DeclFault(doc) IN IF f = 0 THEN Len(doc) ELSE f - 1     \* the part that has a meaning
 DeclHas(doc, p) == p = <<>> \/ \E i \in 1..Eff(doc) : doc[i].t = "open" /\ Append(Encl(doc, i), doc[i].k) = p
 DeclSubs(doc, p) == {doc[i].k : i \in {j \in 1..Eff(doc) : doc[j].t = "open" /\ Encl(doc, j) = p}}
-DeclLookup(doc, p, k) == LET S == {i \in 1..Eff(doc) : Binding(doc[i]) /\ doc[i].k = k /\ Encl(doc, i) = p}
-                         IN IF S = {} THEN <<>> ELSE <<doc[SetMax(S)].v>>         \* the LAST binding wins
+BindsR(l, bare) == Binding(l) \/ (bare /\ l.t = "key")
+ValOf(l) == IF l.t = "key" THEN "" ELSE l.v
+DeclLookupR(doc, p, k, bare) == LET S == {i \in 1..Eff(doc) : BindsR(doc[i], bare) /\ doc[i].k = k /\ Encl(doc, i) = p}
+                                IN IF S = {} THEN <<>> ELSE <<ValOf(doc[SetMax(S)])>>         \* the LAST binding wins
+DeclLookup(doc, p, k) == DeclLookupR(doc, p, k, FALSE)
 DeclLines(doc, p) == LET idx == SelectSeq([i \in 1..Eff(doc) |-> i], LAMBDA i : Content(doc[i]) /\ Encl(doc, i) = p)
                      IN [n \in 1..Len(idx) |-> doc[idx[n]]]
 
@@ -189,6 +203,11 @@ AgreeOn(doc, names, keys) ==
         /\ LinesOf(r, p) = DeclLines(doc, p)
         /\ \A k \in keys : Lookup(r, p, k) = DeclLookup(doc, p, k)
         /\ KeysOf(r, p) = {k \in keys : DeclLookup(doc, p, k) # <<>>}       \* exactly the written keys
+        /\ LET rb == RunR(doc, TRUE) IN                                     \* the other reading of lines without '='
+             /\ \A k \in keys : Lookup(rb, p, k) = DeclLookupR(doc, p, k, TRUE)
+             /\ KeysOf(rb, p) = {k \in keys : DeclLookupR(doc, p, k, TRUE) # <<>>}
+             /\ Has(rb, p) = Has(r, p) /\ Subs(rb, p) = Subs(r, p) /\ LinesOf(rb, p) = LinesOf(r, p)
+             /\ rb.fault = r.fault /\ rb.stack = r.stack
         /\ ~Has(r, p) => Subs(r, p) = {} /\ KeysOf(r, p) = {} /\ LinesOf(r, p) = <<>>
 \* comments and blank lines never matter
 NoiseFree(doc) == SelectSeq(doc, LAMBDA l : ~Ignored(l))
@@ -209,6 +228,17 @@ WrittenRetrievable(doc) == LET r == Run(doc) IN r.fault = 0 =>
        LET p == Encl(doc, i) IN
        \/ GetStringWithDef(r, p, doc[i].k, "<D>") = doc[i].v
        \/ \E j \in (i + 1)..Len(doc) : Binding(doc[j]) /\ doc[j].k = doc[i].k /\ Encl(doc, j) = p
+\* the same under the reading in which a line without '=' binds its key to the empty value: written, or rebound later
+WrittenRetrievableR(doc) == LET r == RunR(doc, TRUE) IN r.fault = 0 =>
+   \A i \in 1..Len(doc) : BindsR(doc[i], TRUE) =>
+       LET p == Encl(doc, i) IN
+       \/ GetStringWithDef(r, p, doc[i].k, "<D>") = ValOf(doc[i])
+       \/ \E j \in (i + 1)..Len(doc) : BindsR(doc[j], TRUE) /\ doc[j].k = doc[i].k /\ Encl(doc, j) = p
+\* the two readings differ only in the keys written bare: there "defines" answers as if the line were "k="
+AsEmpty(doc) == [i \in 1..Len(doc) |-> IF doc[i].t = "key" THEN [doc[i] EXCEPT !.t = "kv", !.v = ""] ELSE doc[i]]
+BareIsEmptyValue(doc) == LET a == RunR(doc, TRUE) b == Run(AsEmpty(doc)) IN
+   /\ DOMAIN a.dom = DOMAIN b.dom /\ a.fault = b.fault /\ a.stack = b.stack
+   /\ \A p \in DOMAIN a.dom : a.dom[p].kv = b.dom[p].kv /\ a.dom[p].subs = b.dom[p].subs
 \* typed getters: parsed value or the default
 TypedTotal(doc, keys) == LET r == Run(doc) IN \A p \in DOMAIN r.dom : \A k \in keys :
    LET x == Lookup(r, p, k) IN
